@@ -73,12 +73,17 @@ PARTIAL = ("Names with non-ASCII cased letters are outside the model (Base/Bytes
            "service is still announceable - still registered, interface and registry still there, records active "
            "(C07_due_second_announcement_sent_partial; that hypothesis is not derived from the history); the completion step "
            "of the probing handler announces a waiting service whose records are active, sets Announced and queues the "
-           "second announcement (C07_probing_pass_announces_completed_service). STILL NOT proved over histories of the "
-           "daemon model: 'never speaks for a name that has not completed three probes since the interface (re)appeared / "
-           "the name was forgotten' (outside 42/44/48) and 'reaches Announced within registration + jitter + 750 ms (+1 s "
-           "per lost tie-break) on never-late schedules': both need the exact timing of one probe through daemon "
-           "iterations with other services' joins and tie-breaks, i.e. a per-(interface, name) invariant through every "
-           "daemon function; they stay at the level of the registry machine plus the executed monitor. Timer coverage of this layer: Props/C12Registry.v. "
+           "second announcement (C07_probing_pass_announces_completed_service). LIVENESS over daemon histories without "
+           "conflict datagrams (round 9, per-(interface, name) invariant carried through every daemon function): from the "
+           "state a registration leaves (both probes of the service - instance and host name - started at T = registration "
+           "+ jitter), through ANY never-late history of calm iterations (queries without authority records; "
+           "registrations of other services, monitor), an iteration at exactly T + 750 ends with the service Announced on "
+           "the interface (C07_reaches_announced_partial), with the probe queries in iterations at exactly T, T + 250, "
+           "T + 500 (C07_probe_timetable_partial, C07_calm_iteration_step). STILL NOT proved: the safety form over ALL "
+           "histories outside 42/44/48 ('never speaks for a name that has not completed three probes'), the bound with "
+           "lost tie-breaks / conflicts (+ 1 s each), and 'announceable' at the due time of the second announcement "
+           "derived from the history; these stay with the registry machine plus the executed monitor (codes 32, 36). "
+           "Timer coverage of this layer: Props/C12Registry.v. "
            "Proved for all operation sequences of the registry machine and for single daemon steps: the other "
            "clauses (see Props/C07.v). NOT proved as a theorem over histories: that chk_C07 accepts every run of the daemon "
            "model (three probes and the wait before every response, second announcement, wake-up requests); this is "
